@@ -98,26 +98,29 @@ func marathon(r *ev.Run, idx int) {
 		}
 		// ---- the follower's receive path ----
 		receive := func(node *sn.Node, who string) bool {
-			if ok, _ := node.Ledger.VerifyBlock(wire, "c13m"); !ok {
-				r.Violation("replica|verify-block-false|"+who, fmt.Sprintf("round %d: the %s's VerifyBlock rejects the produced block", round, who), map[string]interface{}{"marathon": idx, "round": round, "ops": ops})
-				return false
-			}
-			for i, x := range wire.Transactions {
-				if !node.Ledger.IsValidTx(i, x, wire) {
-					what := "transaction"
-					if i == 0 {
-						what = fmt.Sprintf("award (block carries %x, height %d)", x.TxOutputs[0].Amount, wire.Height)
-					}
-					r.Violation("replica|invalid-tx|"+who, fmt.Sprintf("round %d: the %s's IsValidTx refuses %s %d of the produced block", round, who, what, i), map[string]interface{}{"marathon": idx, "round": round, "ops": ops})
-					return false
+			// the engine's real entry for a block received from a peer
+			if err := node.ProcBlock(wire); err != nil {
+				// name the step that objects (same calls, for the message only)
+				step := "walk / consensus"
+				if ok, _ := node.Ledger.VerifyBlock(wire, "c13m"); !ok {
+					step = "VerifyBlock"
 				}
-			}
-			if st := node.Confirm(wire); !st.Succ {
-				r.Violation("replica|confirm-failed|"+who, fmt.Sprintf("round %d: the %s's ledger refuses the produced block: %v", round, who, st.Error), map[string]interface{}{"marathon": idx, "round": round, "ops": ops})
+				for i, x := range wire.Transactions {
+					if !node.Ledger.IsValidTx(i, x, wire) {
+						step = fmt.Sprintf("IsValidTx(%d)", i)
+						if i == 0 {
+							step = fmt.Sprintf("IsValidTx(award: block carries %x at height %d)", x.TxOutputs[0].Amount, wire.Height)
+						}
+						break
+					}
+				}
+				r.Violation("replica|procblock-failed|"+who, fmt.Sprintf("round %d: the %s's engine refuses the produced block: %v (objecting step: %s); log %v", round, who, err, step, node.Log.Tail(3)),
+					map[string]interface{}{"marathon": idx, "round": round, "ops": ops})
 				return false
 			}
-			if err := node.Walk(wire.Blockid, false); err != nil {
-				r.Violation("replica|walk-failed|"+who, fmt.Sprintf("round %d: the %s cannot apply the produced block: %v; log %v", round, who, err, node.Log.Tail(3)), map[string]interface{}{"marathon": idx, "round": round, "ops": ops})
+			if string(node.StateTip()) != string(wire.Blockid) {
+				r.Violation("replica|procblock-did-not-apply|"+who, fmt.Sprintf("round %d: the %s's engine accepted the produced block but its state is not on it", round, who),
+					map[string]interface{}{"marathon": idx, "round": round, "ops": ops})
 				return false
 			}
 			return true
